@@ -47,6 +47,26 @@ def ode_part(ctx):
             if len(set(dict(G.degree()).values())) == 1 and name.startswith("SIS_super_compact"):
                 continue        # known finding (nan on regular graphs)
             kw, desc = odes.ic_kwargs(name, style, G, ctx.rng)
+            # node-level entry points: in half of the cases the rates come from node / edge attributes (recovery_weight,
+            # transmission_weight) — a per-node rate must follow the node, whatever its name and insertion position
+            extra = None
+            if e["nodelevel"] and k % 2 == 1:
+                for u, v in G.edges():
+                    G.edges[u, v]["w"] = ctx.rng.choice([0.5, 1.0, 2.0])
+                for u in G:
+                    G.nodes[u]["r"] = ctx.rng.choice([0.25, 0.5, 1.0, 2.0, 3.0])
+                extra = dict(transmission_weight="w", recovery_weight="r")
+                ctx.count("ode:weighted-node-level")
+                # (and the integer names 0..N-1 are inserted in a shuffled order, as when a graph is read from an edge list)
+                G0, order_ = G, list(G)
+                ctx.rng.shuffle(order_)
+                G = G0.__class__()
+                for u in order_:
+                    G.add_node(u, **G0.nodes[u])
+                es_ = list(G0.edges(data=True))
+                ctx.rng.shuffle(es_)
+                for u, v, d_ in es_:
+                    G.add_edge(u, v, **d_)
             kind = KINDS[ctx.rng.randrange(len(KINDS))]
             H, m = gen.relabel(ctx.rng, G, kind)
             kw2 = dict(kw)
@@ -66,7 +86,7 @@ def ode_part(ctx):
                 ctx.rng.shuffle(perm)
                 nl2 = [m[nl1[i]] for i in perm]
             try:
-                r1 = odes.call(name, G, kw, *args, full, nodelist=nl1, p=0.5)
+                r1 = odes.call(name, G, kw, *args, full, nodelist=nl1, p=0.5, extra=extra)
             except Exception as ex:
                 ctx.case(rep, nontrivial=False)
                 continue        # C06's business
@@ -81,7 +101,7 @@ def ode_part(ctx):
                 rep["relabel"] = kind + ":in-place"
                 ctx.count("ode:in-place")
             try:
-                r2 = odes.call(name, H, kw2, *args, full, nodelist=nl2, p=0.5)
+                r2 = odes.call(name, H, kw2, *args, full, nodelist=nl2, p=0.5, extra=extra)
             except Exception as ex:
                 ctx.case(rep, nontrivial=True)
                 ctx.violation("%s fails on a relabelled copy of a graph it accepts (%s labels): %s" % (name, kind, type(ex).__name__),
